@@ -50,61 +50,82 @@ Definition gram_term (res : list (list Q)) : edict :=
 Definition lmi_term (S : list (list Q)) (E : list (list edict)) : edict :=
   fold1 x_add [] (map (fun '(s, e) => x_scal s e) (combine (concat S) (concat E))).
 
-(** the multipliers read back from the objects: PSD matrices with their eval_dual(), scalar constraints
-    with theirs, each in send order ( _list_of_psd_sent_to_wrapper / _list_of_constraints_sent_to_wrapper ) *)
-Definition psd_part (a : list (item * dval)) : list (list (list Q) * list (list edict)) :=
-  flat_map (fun '(it, d) => match it, d with LMI m, VM s => [(s, m)] | _, _ => [] end) a.
-Definition scalar_part (a : list (item * dval)) : list (Q * edict) :=
-  flat_map (fun '(it, d) => match it, d with SC e _, VS l => [(l, e)] | _, _ => [] end) a.
+(** the multipliers read back from the objects: PSD matrices and scalar constraints with what they show, each
+    in send order ( _list_of_psd_sent_to_wrapper / _list_of_constraints_sent_to_wrapper ).
+    pep.py 748-752 (since the repair of F-C01a): an LMI is combined with the duals of its ENTRY equalities,
+    [entries_dual_variable_value], falling back to eval_dual() when that attribute is None. *)
+Definition lmi_multiplier (d : dval) (u : option (list (list Q))) : option (list (list Q)) :=
+  match u, d with
+  | Some u, _ => Some u
+  | None, VM s => Some s
+  | None, VS _ => None
+  end.
+Definition psd_part (a : list expo) : list (list (list Q) * list (list edict)) :=
+  flat_map (fun '(it, d, u) => match it, lmi_multiplier d u with LMI m, Some s => [(s, m)] | _, _ => [] end) a.
+Definition scalar_part (a : list expo) : list (Q * edict) :=
+  flat_map (fun '(it, d, _) => match it, d with SC e _, VS l => [(l, e)] | _, _ => [] end) a.
 
-(** lines 733-763 *)
-Definition combination (res : list (list Q)) (a : list (item * dval)) : edict :=
+(** lines 733-768 *)
+Definition combine_terms (res : list (list Q)) (psds : list (list (list Q) * list (list edict)))
+           (scs : list (Q * edict)) : edict :=
   let cc0 := gram_term res in
-  let cc1 := fold_left (fun cc '(s, m) => x_sub cc (lmi_term s m)) (psd_part a) cc0 in
-  fold_left (fun cc '(l, e) => x_add cc (x_scal l e)) (scalar_part a) cc1.
+  let cc1 := fold_left (fun cc '(s, m) => x_sub cc (lmi_term s m)) psds cc0 in
+  fold_left (fun cc '(l, e) => x_add cc (x_scal l e)) scs cc1.
 
-(** lines 769-775; [obj] is the decomposition dict of self.objective *)
-Definition final_dict (obj : edict) (res : list (list Q)) (a : list (item * dval)) : edict :=
-  prune (symmetrize (x_sub obj (combination res a))).
+Definition combination (res : list (list Q)) (a : list expo) : edict :=
+  combine_terms res (psd_part a) (scalar_part a).
+
+(** the formula BEFORE that repair (pep.py at 5162ea4): the LMI expressions were combined with eval_dual(), the
+    dual matrix of [M >> 0]; kept only for the regression theorem of Proofs/C01Refuted.v *)
+Definition old_psd_part (a : list expo) : list (list (list Q) * list (list edict)) :=
+  flat_map (fun '(it, d, _) => match it, d with LMI m, VM s => [(s, m)] | _, _ => [] end) a.
+Definition old_combination (res : list (list Q)) (a : list expo) : edict :=
+  combine_terms res (old_psd_part a) (scalar_part a).
+
+(** lines 774-780; [obj] is the decomposition dict of self.objective *)
+Definition final_dict_of (obj cc : edict) : edict := prune (symmetrize (x_sub obj cc)).
+Definition final_dict (obj : edict) (res : list (list Q)) (a : list expo) : edict :=
+  final_dict_of obj (combination res a).
 
 (** lines 777-780 *)
 Definition constant_of (d : edict) : Q :=
   match lookup ekey_eqb K1 d with Some v => v | None => 0 end.
 
-Definition reconstruct (obj : edict) (res : list (list Q)) (a : list (item * dval)) : Q :=
+Definition reconstruct (obj : edict) (res : list (list Q)) (a : list expo) : Q :=
   constant_of (final_dict obj res a).
+Definition old_reconstruct (obj : edict) (res : list (list Q)) (a : list expo) : Q :=
+  constant_of (final_dict_of obj (old_combination res a)).
 
 Definition res_matrix (d : dval) : list (list Q) := match d with VM s => s | VS _ => [] end.
 
 (** the whole post-solve pipeline on the solver's dual vector: what ends up exposed and returned *)
-Definition certificate (obj : edict) (tracked : sent) (temp : list dval) : list (item * dval) * dval * edict * Q :=
-  let '(a, res) := exposed tracked temp in
+Definition certificate (obj : edict) (tracked : sent) (ids : list nat) (temp : list dval)
+  : list expo * dval * edict * Q :=
+  let '(a, res) := exposed tracked ids temp in
   (a, res, final_dict obj (res_matrix res) a, reconstruct obj (res_matrix res) a).
 
+Definition dump_entries (u : option (list (list Q))) : D :=
+  match u with None => DL [] | Some u => DL [dump_qmat u] end.
+
 (** ** Dump of one correspondence case: the rows of the cvxpy problem evaluated at a tagged point,
-    every eval_dual() in send order, PEP.residual, the pruned symmetrised dictionary (keys in order)
-    and the constant returned by check_feasibility. *)
-Definition run_case (np : nat) (obj : edict) (tracked : sent) (temp : list dval)
+    every eval_dual() and entries_dual_variable_value in send order, PEP.residual, the pruned symmetrised
+    dictionary (keys in order) and the constant returned by check_feasibility. *)
+Definition dump_certificate (c : list expo * dval * edict * Q) : list D :=
+  let '(a, res, fd, tau) := c in
+  [ DL (map (fun '(_, d, u) => DL [dump_dval d; dump_entries u]) a); dump_dval res; dump_edict fd; DQ tau ].
+
+Definition run_case (np : nat) (obj : edict) (tracked : sent) (ids : list nat) (temp : list dval)
            (G : list (list Q)) (F : list Q) (M : list (list (list Q))) : D :=
-  let '(a, res, fd, tau) := certificate obj tracked temp in
-  DL [ DL (map (dump_row G F M np) (emit tracked));
-       DL (map (fun '(_, d) => dump_dval d) a);
-       dump_dval res;
-       dump_edict fd;
-       DQ tau ].
+  DL (DL (map (dump_row G F M np) (emit tracked)) :: dump_certificate (certificate obj tracked ids temp)).
 
 (** one case of the C14 stream: the problem before and after prepare_heuristic + heuristic (rows evaluated at the
     tagged point, objective), and what stays exposed: the certificate of the FIRST solve's duals. *)
-Definition run_case_heuristic (np : nat) (obj : edict) (tracked : sent) (temp : list dval)
+Definition run_case_heuristic (np : nat) (obj : edict) (tracked : sent) (ids : list nat) (temp : list dval)
            (G : list (list Q)) (F : list Q) (M : list (list (list Q))) (wc tol : Q) (W : list (list Q)) : D :=
   let w0 := generate_problem obj tracked in
   let w2 := heuristic (prepare_heuristic w0 wc tol) W in
-  let '(a, res, fd, tau) := certificate obj tracked temp in
-  DL [ DL (map (dump_row G F M np) (p_rows (w_prob w0)));
-       dump_objective G F (p_obj (w_prob w0));
-       DL (map (dump_row G F M np) (p_rows (w_prob w2)));
-       dump_objective G F (p_obj (w_prob w2));
-       DL (map (fun '(_, d) => dump_dval d) a);
-       dump_dval res;
-       dump_edict fd;
-       DQ tau ].
+  DL ([ DL (map (dump_row G F M np) (p_rows (w_prob w0)));
+        dump_objective G F (p_obj (w_prob w0));
+        DL (map (dump_row G F M np) (p_rows (w_prob w2)));
+        dump_objective G F (p_obj (w_prob w2)) ]
+      ++ dump_certificate (certificate obj tracked ids temp)).
